@@ -2,7 +2,7 @@
 From Coq Require Import List Bool Arith ZArith NArith Lia.
 From SR Require Import Model.Subseq.
 Import ListNotations.
-Open Scope Z_scope.
+Local Open Scope Z_scope.
 
 (* ------------------------------------------------------------------ *)
 (** * Specification side: flags and runs *)
